@@ -20,11 +20,11 @@ BOUNDS = {
     "quick": {"families": "F1 node lemmas over children V and A, DAG sharing, symbolic constants (so that the simplifier's value tests fork), "
               "stratified F2 and every F4 rule pattern as originals (forward route; both routes for every 4th); second-order partials on F1(V) originals",
               "outside": "deeper originals, n>7, arity>4, third and higher order"},
-    "thorough": {"families": "as quick with all of F2, every F4 pattern (both routes for every 2nd), F3 chains (every 5th), seeded F5; second order on F1 and every 6th F2 tree",
+    "thorough": {"families": "as quick with every 2nd F2 tree, every F4 pattern (both routes for every 2nd), F3 chains (every 5th), seeded F5; second order on F1 and every 6th F2 tree",
                  "outside": "deeper originals, n>7, arity>4, third and higher order"},
 }
 ASSUMPTIONS = ["evaluation of the returned expression is itself executed symbolically (the evaluator is covered by C01/C02)"]
-OPTS = {"quick": {"timeout_ms": 8000, "job_budget_s": 40}, "thorough": {"timeout_ms": 30000, "job_budget_s": 300}}
+OPTS = {"quick": {"timeout_ms": 8000, "job_budget_s": 40}, "thorough": {"timeout_ms": 20000, "job_budget_s": 120}}
 
 ROUTES1 = ["synth_fwd", "synth_rev"]
 
@@ -59,7 +59,7 @@ def jobs(tier, seed):
                    "candidates": [[3, -2, -1], [2, -1, -2], [3, -2.0, -1.0]]})
     add(["Exponential", fam.A(1), ["sym", "b"]], var="x", assume=[["gt", "b", 0]])
     add(["Logarithm", fam.A(1), ["sym", "b"]], var="x", assume=[["gt", "b", 0], ["ne", "b", 1]])
-    f2 = fam.f2_quick(6, 1) if tier == "quick" else fam.f2("thorough")
+    f2 = fam.f2_quick(6, 1) if tier == "quick" else fam.f2("thorough")[::2]
     for i, d in enumerate(f2):
         add(d, var="x")
         if i % 5 == 0:
